@@ -23,6 +23,7 @@ CHECKS["C01"]["replay"] = "case"
 
 CHECKS["C02"] = {
     "package": "seq", "bin": "c02", "flavor": "seq",
+    "aux_miri": {"tiers": ["thorough"], "part": "ring", "seeds": 1},
     "shards": {"quick": 4, "thorough": 16},
     "level": "exploration",
     "technique": "runtime monitoring: event-list oracle (sum/rate/avg/min recomputed from recorded events) over generated ring/window geometries and timestamp histories; constructor predicate checked on a geometry grid",
@@ -207,6 +208,7 @@ CHECKS["C14"] = {
     "shards": {"quick": 16, "thorough": 16},
     "extra_parts": [{"package": "seq", "bin": "c14s", "flavor": "seq", "shards": {"quick": 4, "thorough": 16}}],
     "aux_tsan": {"tiers": ["thorough"], "bins": ["c14s"], "budget_ms": 120000},
+    "aux_miri": {"tiers": ["thorough"], "part": "all", "seeds": 4},
     "distinct_from_extra": "distinct_schedules",
     "level": "exploration",
     "technique": "runtime monitoring under controlled scheduling: the real sentinel-core with its std::sync primitives, atomics and lazy statics switched to the shuttle runtime (--cfg sentinel_verif_sched) is run under every schedule with <= k preemptions (CHESS-style enumeration, k = 1..3) and under randomised and PCT(1..3) schedulers; a ledger oracle is evaluated after join in every execution; plus barrier-released real OS-thread stress with the same oracle",
